@@ -656,6 +656,11 @@ T = {
     needs="two evaluations of one pair in one block with a price feed between them, the second order triggered by the earlier price only",
     caught_by="C20.trigger in scenario c20-price-moves-between-two-executions (the clause is now judged at the price in force when each request ran)",
     history="MISSED at first (feeds always came first in a block and the clause was not judged otherwise); the driver replays the block's feeds to know the price each execution request ran under, order-focused histories put feeds between transactions, and a directed scenario has two limit sells with a feed between their execution requests; caught since"),
+ "C18-7": dict(
+    change="x/masterchef/keeper/hooks_masterchef.go UpdateAccPerShare: the early return tests the amount instead of the committed total (the line below divides by the total)",
+    needs="a reward pool whose share denom has no committed amount — the lending vault (pool 32767) before anybody has bonded —, a supported reward denom, and anybody's MsgAddExternalIncentive for it: every block of the period panics in masterchef's end-blocker",
+    caught_by="C18.block_ok in scenario c18-external-incentive-before-first-bond-fresh-vault",
+    history="MISSED at first (every world is seeded with two deposits into the vault, and incentives were funded for amm pools only); a world seeded without the vault deposits and a directed scenario added; caught since"),
 }
 
 root = os.path.join(os.path.dirname(os.path.dirname(os.path.abspath(__file__))), "seeded")
